@@ -151,6 +151,16 @@ TEMPLATES = [
     ("t(1, zero) not in [t(2, zero), t(3)]", lambda a, b, c: [1, 2, 3]),
     ("[t(1, zero)] in [[t(2, zero)], [t(3)]]", lambda a, b, c: [1, 2, 3]),
     ("t(1, 'k') in {t(2, 'k'): t(3), t(4, 'j'): t(5)}", lambda a, b, c: [1, 2, 3, 4, 5]),
+    # dict literals: every key and value expression is evaluated, also for keys that repeat
+    ("{'a': t(1), 'b': t(2), 'a': t(3)}", lambda a, b, c: [1, 2, 3]),
+    ("{1: t(1), '1': t(2), 1.0: t(3)}", lambda a, b, c: [1, 2, 3]),
+    ("{t(1, 'k'): t(2), 'k': t(3), t(4, 'k'): t(5)}", lambda a, b, c: [1, 2, 3, 4, 5]),
+    ("[t(1), t(1), t(1)] | len", lambda a, b, c: [1, 1, 1]),
+    # multiplication: both operands are evaluated before the operation is refused
+    ("t(1, 'x') * t(2, a)", lambda a, b, c: [1, 2]),
+    ("t(1, None) * t(2)", lambda a, b, c: [1, 2]),
+    ("x = 's'\nx *= t(1, a)", lambda a, b, c: [1]),
+    ("t(1, l) * t(2) + t(3)", lambda a, b, c: [1, 2]),
     # a name that cannot be resolved anywhere in a condition / operand ends the evaluation there
     ("t(1, a) if nosuch else t(2, b)", lambda a, b, c: []),
     ("t(1, a) if (t(2, c) and nosuch) else t(3, b)", lambda a, b, c: [2] if c else [2, 3]),
